@@ -172,6 +172,11 @@ func (a *FuncAction) Exec(ctx context.Context, bs Bindings, props StepProps) (*E
 		if exe == nil {
 			exe = NewExecution(nil)
 		}
+		if exe.Events == nil {
+			// An action that built its Execution by hand
+			// (and not with NewExecution).
+			exe.Events = newEvents()
+		}
 		t := map[string]interface{}{
 			"action":  "executed",
 			"emitted": len(exe.Events.Emitted),
